@@ -1055,7 +1055,21 @@ pub fn oracle_c15(target: &str, shp: &[u8], shx: Option<&[u8]>, ops: &[ROp]) -> 
         _ => return Verdict::pass(), // not a clean file: C15 is about valid files
     };
     let n = records.len();
+    // a typed history over a file that holds records of another type (a null record in the middle)
+    // is judged by the correspondence with the model, not by this oracle
+    if target != "generic" && v_read(target, shp, Some(shx)).contains("err") {
+        return Verdict::pass();
+    }
     let real = v_rhist(target, shp, Some(shx), ops);
+    // the same history through a source that returns five bytes per read call
+    {
+        let cap = item_cap(shp.len(), shx.len());
+        let mk = |d: &[u8]| crate::round4::ChunkSrc { data: d.to_vec(), pos: 0, chunk: 5 };
+        let chunked = crate::with_type!(target, T => rhist_as::<T, _>(mk(shp), Some(mk(shx)), ops, cap), else rhist_as::<Shape, _>(mk(shp), Some(mk(shx)), ops, cap));
+        if chunked != real {
+            return Verdict::fail("history-short-reads", format!("through a source returning 5 bytes per read the history gives `{}`, through a cursor `{}`", &chunked[..chunked.len().min(200)], &real[..real.len().min(200)]));
+        }
+    }
     let mut parts: Vec<&str> = vec![];
     // split "open ok ; a ; it[x ; y] ; b" at top-level " ; "
     {
@@ -1292,6 +1306,10 @@ pub fn oracle_scenario(prop: &str, a: &[String]) -> Option<Verdict> {
             let v = u32::from_str_radix(a.get(2)?, 16).ok()?;
             Some(crate::round3::oracle_header_code_any_version(code, v.to_be_bytes()))
         }
+        (_, Some("iter-adaptors")) => Some(crate::round5::oracle_iter_adaptors(a.get(1)?.parse().ok()?)),
+        (_, Some("big-index-routes")) => Some(crate::round5::oracle_big_index_routes(a.get(1)?.parse().ok()?)),
+        (_, Some("gap-faults")) => Some(crate::round5::oracle_gap_faults()),
+        (_, Some("header-code-ranges")) => Some(crate::round5::oracle_header_code_ranges(a.get(1)?.parse().ok()?, a.get(2)?.parse().ok()?)),
         (_, Some("panic-drop")) => Some(crate::round4::oracle_panic_drop(a.get(1)?.parse().ok()?)),
         (_, Some("reused-destinations")) => Some(crate::round4::oracle_reused_destinations(a.get(1)?.parse().ok()?, a.get(2)?.parse().ok()?)),
         (_, Some("read-vs-readas")) => Some(crate::round4::oracle_read_vs_readas()),
